@@ -1,6 +1,8 @@
-(* StatusLang (C20): a small language of side-effecting steps with Python exception semantics
-   (try/except with or without re-raise, `except Exception` vs bare except, for loops over an
-   iterator, run-time branches) over an abstract world describing the status file and the output BAM.
+(* StatusLang (C20): a small language of side-effecting steps with Python control flow (exceptions with
+   try/except with or without re-raise, `except Exception` vs bare except, for loops over an iterator
+   with break / continue, run-time branches, branches on tracked data, early return, and a call of a
+   pool worker that runs on a world of its own) over an abstract world describing the status file and
+   one BAM under construction (the output of the run, or the temporary BAM of one pool worker).
    Gen/GenStatus.v (regenerated from /repo on every run) contains the pipelines as terms of [prog].
    Definitions only; no proofs. *)
 From Coq Require Import List Bool Arith.
@@ -11,49 +13,89 @@ Inductive status := SNone        (* no status file *)
                   | SUnfinished  (* 'unfinished' *)
                   | SFail        (* 'FAIL...' *)
                   | SOk          (* 'Reached end. All ok!' *)
-                  | SOther.      (* anything else, e.g. a truncated file *)
+                  | SOther.      (* anything else, e.g. a truncated file, 'Submitting jobs...' *)
 
 Record world := mkW {
   st : status;   (* status file *)
-  ex : bool;     (* output BAM exists *)
-  co : bool;     (* output BAM is readable to the end and holds every record *)
-  so : bool;     (* output BAM is coordinate sorted *)
-  ix : bool;     (* output BAM has an index that belongs to it *)
-  lost : bool    (* ghost: an exception raised in a block that writes records was swallowed *)
+  ex : bool;     (* the BAM exists *)
+  co : bool;     (* the BAM is readable to the end and holds every record *)
+  so : bool;     (* the BAM is coordinate sorted *)
+  ix : bool;     (* the BAM has an index that belongs to it *)
+  lost : bool;   (* ghost: records were dropped WITHOUT a report: an exception raised in a block that writes
+                    records was swallowed, a worker failed, a returned temp BAM was never put on the merge
+                    list, a temp BAM holding units of unreported tasks was thrown away *)
+  rep : bool;    (* ghost: records of a segment were dropped and the segment was REPORTED
+                    (run_tagging_tasks: timeout_tasks, blacklisted in the output header by the parent) *)
+  tu : bool;     (* data: total_molecules_written > 0 (the counter local to one run_tagging_task call) *)
+  tm : bool;     (* data: total_molecules > 0 (the accumulator of one worker) *)
+  gu : bool;     (* ghost: units were written since the current segment (a try block whose handler reports)
+                    began / outside any segment *)
+  gm : bool;     (* ghost: units were written by a segment that then completed normally *)
+  got : bool     (* data: the parent holds the path of a temp BAM returned by the last worker (bam is not None)
+                    and has not yet put it on the merge list *)
 }.
+
+Definition set_st (s : status) (w : world) :=
+  mkW s (ex w) (co w) (so w) (ix w) (lost w) (rep w) (tu w) (tm w) (gu w) (gm w) (got w).
+Definition set_file (e c s i : bool) (w : world) :=
+  mkW (st w) e c s i (lost w) (rep w) (tu w) (tm w) (gu w) (gm w) (got w).
+Definition set_lost (b : bool) (w : world) :=
+  mkW (st w) (ex w) (co w) (so w) (ix w) b (rep w) (tu w) (tm w) (gu w) (gm w) (got w).
+Definition set_rep (b : bool) (w : world) :=
+  mkW (st w) (ex w) (co w) (so w) (ix w) (lost w) b (tu w) (tm w) (gu w) (gm w) (got w).
+Definition set_tu (b : bool) (w : world) :=
+  mkW (st w) (ex w) (co w) (so w) (ix w) (lost w) (rep w) b (tm w) (gu w) (gm w) (got w).
+Definition set_tm (b : bool) (w : world) :=
+  mkW (st w) (ex w) (co w) (so w) (ix w) (lost w) (rep w) (tu w) b (gu w) (gm w) (got w).
+Definition set_gu (b : bool) (w : world) :=
+  mkW (st w) (ex w) (co w) (so w) (ix w) (lost w) (rep w) (tu w) (tm w) b (gm w) (got w).
+Definition set_gm (b : bool) (w : world) :=
+  mkW (st w) (ex w) (co w) (so w) (ix w) (lost w) (rep w) (tu w) (tm w) (gu w) b (got w).
+Definition set_got (b : bool) (w : world) :=
+  mkW (st w) (ex w) (co w) (so w) (ix w) (lost w) (rep w) (tu w) (tm w) (gu w) (gm w) b.
 
 Inductive eff :=
 | EStatus (s : status)   (* write_status(out, msg) *)
 | ERemoveOut             (* os.remove(out) *)
 | ERemoveIdx             (* os.remove(out.bai) *)
-| EUnit                  (* one unit of records handed to the not yet finished output
-                            (molecule.write_pysam / one task of a worker / one worker result) *)
-| EWriteOut              (* the output path is produced from everything handed over so far
+| EUnit                  (* one unit of records handed to the not yet finished BAM (molecule.write_pysam) *)
+| EWriteOut              (* the BAM is produced from everything handed over so far
                             (pysam.sort -o out / pysam.merge out / move / rename) *)
 | EIndex                 (* pysam.index(out) / move of the .bai *)
-| ENop.                  (* a call that does not touch status file, output BAM or its index *)
+| ENop                   (* a call that does not touch status file, BAM or its index *)
+| EReport                (* timeout_tasks.append(task): the segment that just failed is recorded in the
+                            worker's result (the ghost [rep] is set when the handler is entered, see [mark]) *)
+| ECntReset              (* total_molecules_written = 0 *)
+| ECntInc                (* total_molecules_written += 1 *)
+| EAccum                 (* total_molecules += statistics.get('total_molecules_written', 0) *)
+| EKeep.                 (* bam_files_generated.append(bam): the returned temp BAM is put on the merge list *)
 
 Definition apply (e : eff) (w : world) : world :=
   match e with
-  | EStatus s => mkW s (ex w) (co w) (so w) (ix w) (lost w)
-  | ERemoveOut => mkW (st w) false false false (ix w) (lost w)
-  | ERemoveIdx => mkW (st w) (ex w) (co w) (so w) false (lost w)
-  | EUnit => mkW (st w) (ex w) false (so w) (ix w) (lost w)
-  | EWriteOut => mkW (st w) true (negb (lost w)) true false (lost w)
-  | EIndex => mkW (st w) (ex w) (co w) (so w) (ex w) (lost w)
+  | EStatus s => set_st s w
+  | ERemoveOut => set_file false false false (ix w) w
+  | ERemoveIdx => set_file (ex w) (co w) (so w) false w
+  | EUnit => set_gu true (set_file (ex w) false (so w) (ix w) w)
+  | EWriteOut => (* a returned path that never reached the merge list is not in the result *)
+      let l := lost w || got w in
+      set_got false (set_lost l (set_file true (negb l && negb (rep w)) true false w))
+  | EIndex => set_file (ex w) (co w) (so w) (ex w) w
   | ENop => w
+  | EReport => w
+  | ECntReset => set_tu false w
+  | ECntInc => set_tu true w
+  | EAccum => set_tm (tm w || tu w) w
+  | EKeep => set_got false w
   end.
 
 (* the step raised after doing part of its work *)
 Definition partial (e : eff) (w : world) : world :=
   match e with
-  | EStatus _ => mkW SOther (ex w) (co w) (so w) (ix w) (lost w)      (* opened for writing, truncated *)
-  | ERemoveOut => w
-  | ERemoveIdx => w
-  | EUnit => mkW (st w) (ex w) false (so w) (ix w) (lost w)
-  | EWriteOut => mkW (st w) true false true false (lost w)              (* a well-formed file holding only part of the records *)
-  | EIndex => mkW (st w) (ex w) (co w) (so w) false (lost w)
-  | ENop => w
+  | EStatus _ => set_st SOther w                                   (* opened for writing, truncated *)
+  | EUnit => set_gu true (set_file (ex w) false (so w) (ix w) w)
+  | EWriteOut => set_file true false true false w                  (* a well-formed file holding only part of the records *)
+  | EIndex => set_file (ex w) (co w) (so w) false w
+  | _ => w
   end.
 
 (* exception kinds a failing step can raise, with the part of Python's class hierarchy that the
@@ -86,47 +128,110 @@ Definition catches (hs : list hclass) (k : ekind) : bool := existsb (fun h => ca
 (* fault oracle answer for one executed step: it works, raises before doing anything, or raises after
    doing part of its work; the exception kind is part of the answer *)
 Inductive fault := FNone | FBefore (k : ekind) | FPartial (k : ekind).
-Inductive res := RNormal | RRaised (k : ekind).
+
+(* first component of what run_tagging_tasks returns *)
+Inductive retv := VPath (* the path of its temp BAM *) | VNone.
+Inductive res := RNormal | RRaised (k : ekind) | RBreak | RContinue | RReturn (v : retv).
+
+(* run-time tests on data the world tracks *)
+Inductive guard := GTotal   (* total_molecules > 0 *)
+                 | GGot.    (* bam is not None *)
+Definition guard_holds (g : guard) (w : world) : bool := match g with GTotal => tm w | GGot => got w end.
 
 Inductive prog :=
 | Skip
 | Step (lbl : nat) (e : eff)
-| Raise (lbl : nat) (k : ekind)     (* a raise statement *)
+| Raise (lbl : nat) (k : ekind)     (* a raise statement; exit() is Raise _ KBase *)
 | Seq (a b : prog)
 | Loop (id : nat) (lbl : nat) (hdr : eff) (body : prog)
-    (* for x in it: body  --  [cnt id] times (next(it) with effect hdr; body), then a last next(it) *)
+    (* for x in it: body  --  [cnt id k] times (next(it) with effect hdr; body), then a last next(it);
+       k = how often this loop was entered before *)
 | Try (body handler : prog) (reraise : bool) (hs : list hclass)
     (* try: body  except (hs): handler [; raise] *)
-| Choice (id : nat) (a b : prog).   (* if <run-time condition>: a else: b *)
+| Choice (id : nat) (a b : prog)    (* if <run-time condition>: a else: b *)
+| Break
+| Continue
+| Return (v : retv)
+| IfW (g : guard) (a b : prog)      (* if <condition on tracked data>: a else: b *)
+| Spawn (lbl : nat) (p : prog).     (* one result of the worker pool: p (run_tagging_tasks) runs on a world of its
+                                       own (fresh temp BAM); its return value / exception reaches the caller *)
 
 Definition seq_of (l : list prog) : prog := fold_right Seq Skip l.
 
 Fixpoint has_unit (p : prog) : bool :=
   match p with
-  | Skip => false
   | Step _ e => match e with EUnit => true | _ => false end
-  | Raise _ _ => false
   | Seq a b => has_unit a || has_unit b
   | Loop _ _ h b => match h with EUnit => true | _ => has_unit b end
   | Try b h _ _ => has_unit b || has_unit h
   | Choice _ a b => has_unit a || has_unit b
+  | IfW _ a b => has_unit a || has_unit b
+  | Spawn _ _ => true
+  | _ => false
   end.
 
-Record cfg := mkC { cn : nat; wd : world; tr : list nat }.
+(* the handler certainly records the failed segment (in every run of the handler that ends normally) *)
+Fixpoint reports (p : prog) : bool :=
+  match p with
+  | Step _ e => match e with EReport => true | _ => false end
+  | Seq a b => reports a || reports b
+  | Choice _ a b => reports a && reports b
+  | IfW _ a b => reports a && reports b
+  | _ => false
+  end.
 
-Definition mark (b : bool) (s : cfg) : cfg :=
-  if b then mkC (cn s) (let w := wd s in mkW (st w) (ex w) (co w) (so w) (ix w) true) (tr s) else s.
+Record cfg := mkC { cn : nat;          (* steps executed so far *)
+                    wd : world;
+                    tr : list nat;     (* labels of the executed steps, last first *)
+                    en : list nat }.   (* ids of the loops entered so far, last first *)
+
+(* an exception is swallowed by a handler (no re-raise) after a block that writes records: the records of that
+   block are incomplete; reported when the handler reports, lost otherwise *)
+Definition mark_w (b rp : bool) (w : world) : world :=
+  if b then (if rp then set_gu false (set_rep true w) else set_lost true w) else w.
+(* a segment (try block whose handler reports) begins / ends without a caught exception: the units written
+   before / in it stay *)
+Definition commit_w (rp : bool) (w : world) : world :=
+  if rp then set_gu false (set_gm (gm w || gu w) w) else w.
+Definition on_world (g : world -> world) (s : cfg) : cfg := mkC (cn s) (g (wd s)) (tr s) (en s).
+Definition mark (b rp : bool) (s : cfg) : cfg := on_world (mark_w b rp) s.
+Definition commit (rp : bool) (s : cfg) : cfg := on_world (commit_w rp) s.
+
+(* the world a pool worker starts in: a fresh temp path (uuid4, collision loop) *)
+Definition w_spawn0 : world := mkW SNone false false false false false false false false false false false.
+
+(* the caller's world after one worker result (ww = the worker's world when it returned) *)
+Definition join (v : retv) (ww pw : world) : world :=
+  let dropped := got pw in     (* an earlier returned path was never put on the merge list *)
+  match v with
+  | VPath =>
+      (* the caller now holds a temp BAM to merge: the output is incomplete until the merge; records are
+         lost for good when that file does not exist / is not sorted / lacks units without a report *)
+      let l := lost pw || dropped || lost ww || negb (ex ww) || negb (so ww) || (negb (co ww) && negb (rep ww)) in
+      set_got true (set_rep (rep pw || rep ww) (set_lost l (set_file (ex pw) false (so pw) (ix pw) pw)))
+  | VNone =>
+      (* nothing to merge: fine unless the worker had written units of tasks it does not report *)
+      let l := lost pw || dropped || lost ww || gm ww || gu ww in
+      set_got false (set_rep (rep pw || rep ww) (set_lost l pw))
+  end.
+(* the worker raised (the pool re-raises in the caller) or returned nothing usable: its records never arrive *)
+Definition spawn_fail (pw : world) : world := set_lost true pw.
+
+Fixpoint count (id : nat) (l : list nat) : nat :=
+  match l with [] => 0 | x :: l' => (if Nat.eqb x id then 1 else 0) + count id l' end.
+
+Definition cont_to_normal (r : res) : res := match r with RContinue => RNormal | _ => r end.
 
 Section Exec.
-  Variable cnt : nat -> nat.     (* iterations of each loop *)
-  Variable ch : nat -> bool.     (* outcome of each run-time branch *)
-  Variable f : nat -> fault.     (* what happens to the i-th executed step *)
+  Variable cnt : nat -> nat -> nat.   (* iterations of loop [id] when it is entered for the k-th time (k from 0) *)
+  Variable ch : nat -> nat -> bool.   (* outcome of run-time test [id] evaluated after n executed steps *)
+  Variable f : nat -> fault.          (* what happens to the i-th executed step *)
 
   Definition step (l : nat) (e : eff) (s : cfg) : res * cfg :=
     match f (cn s) with
-    | FNone => (RNormal, mkC (S (cn s)) (apply e (wd s)) (l :: tr s))
-    | FBefore k => (RRaised k, mkC (S (cn s)) (wd s) (l :: tr s))
-    | FPartial k => (RRaised k, mkC (S (cn s)) (partial e (wd s)) (l :: tr s))
+    | FNone => (RNormal, mkC (S (cn s)) (apply e (wd s)) (l :: tr s) (en s))
+    | FBefore k => (RRaised k, mkC (S (cn s)) (wd s) (l :: tr s) (en s))
+    | FPartial k => (RRaised k, mkC (S (cn s)) (partial e (wd s)) (l :: tr s) (en s))
     end.
 
   Fixpoint iter (k : nat) (one : cfg -> res * cfg) (s : cfg) : res * cfg :=
@@ -140,35 +245,65 @@ Section Exec.
     match p with
     | Skip => (RNormal, s)
     | Step l e => step l e s
-    | Raise l k => (RRaised k, mkC (S (cn s)) (wd s) (l :: tr s))
+    | Raise l k => (RRaised k, mkC (S (cn s)) (wd s) (l :: tr s) (en s))
     | Seq a b => let (r, s1) := exec a s in
                  match r with RNormal => exec b s1 | _ => (r, s1) end
     | Loop id l h body =>
-        let (r, s1) := iter (cnt id)
+        let (r, s1) := iter (cnt id (count id (en s)))
                             (fun s0 => let (r0, s0') := step l h s0 in
-                                       match r0 with RNormal => exec body s0' | _ => (r0, s0') end) s in
-        match r with RNormal => step l ENop s1 | _ => (r, s1) end
-    | Try body h reraise hs =>
-        let (r, s1) := exec body s in
+                                       match r0 with
+                                       | RNormal => let (rb, sb) := exec body s0' in (cont_to_normal rb, sb)
+                                       | _ => (r0, s0')
+                                       end)
+                            (mkC (cn s) (wd s) (tr s) (id :: en s)) in
         match r with
-        | RNormal => (RNormal, s1)
+        | RNormal => step l ENop s1       (* the next() that raises StopIteration *)
+        | RBreak => (RNormal, s1)
+        | _ => (r, s1)
+        end
+    | Try body h reraise hs =>
+        let rp := reports h in
+        let (r, s1) := exec body (commit rp s) in
+        match r with
         | RRaised k =>
             if catches hs k then
-              let (r2, s2) := exec h (mark (negb reraise && has_unit body) s1) in
+              let (r2, s2) := exec h (mark (negb reraise && has_unit body) rp s1) in
               match r2 with RNormal => (if reraise then r else RNormal, s2) | _ => (r2, s2) end
             else (r, s1)
+        | _ => (r, commit rp s1)
         end
-    | Choice id a b => if ch id then exec a s else exec b s
+    | Choice id a b => if ch id (cn s) then exec a s else exec b s
+    | Break => (RBreak, s)
+    | Continue => (RContinue, s)
+    | Return v => (RReturn v, s)
+    | IfW g a b => if guard_holds g (wd s) then exec a s else exec b s
+    | Spawn l p =>
+        let (r, s1) := exec p (mkC (cn s) w_spawn0 (tr s) (en s)) in
+        let back := fun w => mkC (cn s1) w (tr s1) (en s1) in
+        match r with
+        | RReturn v => (RNormal, back (join v (wd s1) (wd s)))
+        | RRaised k => (RRaised k, back (spawn_fail (wd s)))
+        | _ => (RRaised KOther, back (spawn_fail (wd s)))    (* no (path, meta) pair to unpack *)
+        end
     end.
 End Exec.
 
-(* the invariant of the property: the status file reports success only for an output that exists,
-   is complete, sorted and indexed *)
 Definition status_eqb (a b : status) : bool :=
   match a, b with
   | SNone, SNone | SUnfinished, SUnfinished | SFail, SFail | SOk, SOk | SOther, SOther => true
   | _, _ => false
   end.
 
+(* the invariant of the property: the status file reports success only for an output that exists,
+   is complete, sorted and indexed *)
 Definition invb (w : world) : bool :=
   if status_eqb (st w) SOk then ex w && co w && so w && ix w else true.
+
+(* the same when segments may be given up on purpose (-max_time_per_segment): complete except for
+   segments that were reported, and nothing dropped without a report *)
+Definition goodb (w : world) : bool := ex w && so w && ix w && negb (lost w) && (co w || rep w).
+Definition invb_rep (w : world) : bool := if status_eqb (st w) SOk then goodb w else true.
+
+(* ghost and data fields in their initial state *)
+Definition aux_clear (w : world) : bool :=
+  negb (lost w || rep w || tu w || tm w || gu w || gm w || got w).
